@@ -32,7 +32,7 @@ impl VarInt {
 //@ ensures r == self.0
 //@ end
 //@ extract wtransport-proto/src/varint.rs >> impl VarInt >> fn from_u64_unchecked
-//@ subst `Self::MAX.into_inner()` => `4_611_686_018_427_387_903`
+//@ rename `Self::MAX.into_inner()` => `4_611_686_018_427_387_903`
 //@ requires value <= VARINT_MAX
 //@ ensures r.0 == value, r.wf()
 //@ end
@@ -65,7 +65,7 @@ impl QStreamId {
     spec fn wf(self) -> bool { self.val() <= QSTREAM_MAX }
 
 //@ extract wtransport-proto/src/ids.rs >> impl QStreamId >> fn from_session_id
-//@ subst `Self::MAX.into_u64()` => `1_152_921_504_606_846_975`
+//@ rename `Self::MAX.into_u64()` => `1_152_921_504_606_846_975`
 //@ prologue proof { let x = session_id.val(); assert(x <= 0x3fff_ffff_ffff_ffff ==> (x >> 2) <= 0x0fff_ffff_ffff_ffff && (x >> 2) == x / 4) by (bit_vector); }
 //@ requires session_id.wf()
 //@ ensures r.val() == session_id.val() / 4, r.wf()
